@@ -2273,3 +2273,109 @@ func E3ArcExtent(c *core.Ctx, r *core.Report) {
 	r.Count("E3.arc-extent-folds", n)
 	r.Floor("E3.arc-extent-folds", 4)
 }
+
+// E3TextBoundsFold: the bounds of a text fold over every span, never read an extreme off a fixed index.
+func E3TextBoundsFold(c *core.Ctx, r *core.Report) {
+	r.Rule("E3.text-bounds-fold", "reorderSpans moves right-to-left runs to their visual place by rewriting the spans' X only (premise, read off its body: it stores into the X field of elements and neither swaps nor sorts the slice), so the spans of a line are in logical, not in visual order: the leftmost and the rightmost span can be anywhere in the slice. The methods of Text that return a Rect (Bounds, OutlineBounds) therefore take span positions only from the variable of a range over the line's spans, folded into the result inside that loop; a span selected by a fixed index (`spans[0]`, `spans[len-1]`) whose X or Width reaches the rectangle leaves out whole spans on a bidirectional line")
+	p := c.MustPkg("")
+	info := p.TypesInfo
+	// premise
+	ro := core.MustFuncDecl(p, "reorderSpans")
+	storesX, moves := false, false
+	ast.Inspect(ro.Body, func(m ast.Node) bool {
+		switch x := m.(type) {
+		case *ast.AssignStmt:
+			for _, l := range x.Lhs {
+				if se, ok := l.(*ast.SelectorExpr); ok && se.Sel.Name == "X" {
+					if _, ok := core.Unparen(se.X).(*ast.IndexExpr); ok {
+						storesX = true
+					}
+				}
+				if _, ok := core.Unparen(l).(*ast.IndexExpr); ok {
+					moves = true // an element is overwritten as a whole
+				}
+			}
+		case *ast.CallExpr:
+			if f := core.CalleeOf(info, x); f != nil && f.Pkg() != nil && (f.Pkg().Path() == "sort" || f.Pkg().Path() == "slices") {
+				moves = true
+			}
+		}
+		return true
+	})
+	if storesX && !moves {
+		r.OK("E3.text-bounds-fold", "canvas.reorderSpans|rewrites positions, keeps the slice order", c.Pos(ro.Pos()), "")
+	} else {
+		r.Fail("E3.text-bounds-fold", "canvas.reorderSpans|rewrites positions, keeps the slice order", c.Pos(ro.Pos()), "reorderSpans no longer only rewrites X: the premise of this rule has to be reviewed")
+		return
+	}
+	n := 0
+	for _, fd := range core.AllFuncDecls(p) {
+		if core.RecvName(fd) != "Text" || fd.Type.Results == nil || len(fd.Type.Results.List) != 1 {
+			continue
+		}
+		if t := info.TypeOf(fd.Type.Results.List[0].Type); t == nil || !strings.HasSuffix(t.String(), "canvas.Rect") {
+			continue
+		}
+		n++
+		key := "canvas.Text." + fd.Name.Name + "|span positions come from the range variable"
+		isSpans := func(e ast.Expr) bool {
+			t := info.TypeOf(e)
+			if t == nil {
+				return false
+			}
+			sl, ok := t.Underlying().(*types.Slice)
+			return ok && strings.HasSuffix(sl.Elem().String(), "TextSpan")
+		}
+		// locals holding an indexed span
+		indexed := map[types.Object]token.Pos{}
+		bad := ""
+		var badPos token.Pos
+		ast.Inspect(fd.Body, func(m ast.Node) bool {
+			switch x := m.(type) {
+			case *ast.AssignStmt:
+				if len(x.Lhs) == len(x.Rhs) {
+					for i, rhs := range x.Rhs {
+						if ie, ok := core.Unparen(rhs).(*ast.IndexExpr); ok && isSpans(ie.X) {
+							if id, ok := x.Lhs[i].(*ast.Ident); ok {
+								indexed[core.ObjOf(info, id)] = x.Pos()
+							}
+						}
+					}
+				}
+			case *ast.SelectorExpr:
+				if x.Sel.Name != "X" && x.Sel.Name != "Width" {
+					return true
+				}
+				switch b := core.Unparen(x.X).(type) {
+				case *ast.IndexExpr:
+					if isSpans(b.X) && bad == "" {
+						bad, badPos = "`"+types.ExprString(x)+"` reads the position of a span selected by index", x.Pos()
+					}
+				case *ast.Ident:
+					if _, ok := indexed[core.ObjOf(info, b)]; ok && bad == "" {
+						bad, badPos = "`"+types.ExprString(x)+"` reads the position of a span that was selected by index (`"+b.Name+"`)", x.Pos()
+					}
+				}
+			}
+			return true
+		})
+		// and there is a range over spans at all
+		ranges := false
+		ast.Inspect(fd.Body, func(m ast.Node) bool {
+			if rs, ok := m.(*ast.RangeStmt); ok && isSpans(rs.X) {
+				ranges = true
+			}
+			return true
+		})
+		switch {
+		case bad != "":
+			r.Fail("E3.text-bounds-fold", key, c.Pos(badPos), bad+": the slice is in logical order, after reorderSpans the outermost spans of a bidirectional line are not its first and last elements, and the rectangle leaves spans out")
+		case !ranges:
+			r.Fail("E3.text-bounds-fold", key, c.Pos(fd.Pos()), "no loop over the spans of a line")
+		default:
+			r.OK("E3.text-bounds-fold", key, c.Pos(fd.Pos()), "")
+		}
+	}
+	r.Count("E3.text-rect-methods", n)
+	r.Floor("E3.text-rect-methods", 2)
+}
